@@ -79,7 +79,7 @@ def custom_request_class(fc=0x55):
     return VerifCustomRequest
 
 
-def build_via_factory(name, given, ctxkind="single"):
+def build_via_factory(name, given, ctxkind="single", flag_value=True):
     """call the REAL factory; -> (built server object or None, markers dict)"""
     from pymodbus.device import ModbusDeviceIdentification
     from pymodbus.transaction import ModbusRtuFramer
@@ -104,9 +104,9 @@ def build_via_factory(name, given, ctxkind="single"):
     Custom = custom_request_class()
     kw = {}
     if given:
-        kw = dict(framer=MarkFramer, identity=ident, ignore_missing_slaves=True, custom_functions=[Custom])
+        kw = dict(framer=MarkFramer, identity=ident, ignore_missing_slaves=flag_value, custom_functions=[Custom])
         if mod != "asynchronous":
-            kw["broadcast_enable"] = True
+            kw["broadcast_enable"] = flag_value
         if MarkHandler is not None:
             kw["handler"] = MarkHandler
     captured = []
@@ -153,7 +153,7 @@ def build_via_factory(name, given, ctxkind="single"):
             else:
                 getattr(T, fn)(ctx, address=("127.0.0.1", 0), defer_reactor_run=True, **kw)
             srv = captured[0] if captured else None
-        return srv, {"ctx": ctx, "MarkFramer": MarkFramer, "MarkHandler": MarkHandler, "ident": ident,
+        return srv, {"flag_value": flag_value, "ctx": ctx, "MarkFramer": MarkFramer, "MarkHandler": MarkHandler, "ident": ident,
                      "updates": list(updates), "Custom": Custom, "mod": mod, "target": target}
     finally:
         for obj, attr, old, had in reversed(undo):
@@ -202,7 +202,9 @@ def observe(srv, m, given):
         if flag == "broadcast_enable" and mod == "asynchronous":
             continue
         v = getattr(srv, flag, "MISSING")
-        obs[flag] = (v is True, "Defaults." + dname if v == getattr(Defaults, dname) and v is not True else repr(v))
+        fv = m.get("flag_value", True)
+        served = (v is fv) or (type(v) is type(fv) and v == fv)          # the very value the user passed (1 stays 1)
+        obs[flag] = (bool(given) and served, "Defaults." + dname if v == getattr(Defaults, dname) and not (given and served) else repr(v))
     obs["identity"] = (bool(given) and any(v is m["ident"] for v in m["updates"]), "no update" if not m["updates"] else "updated")
     if given:
         fc = m["Custom"].function_code
@@ -215,11 +217,11 @@ def observe(srv, m, given):
 def factory_cases():
     cases = []
     for name in FACTORIES:
-        for given, ctxkind in ((True, "single"), (True, "empty-multi"), (False, "single")):
+        for given, ctxkind, fv in ((True, "single", True), (True, "empty-multi", True), (True, "single", 1), (False, "single", True)):
             if not given and name.startswith("asynchronous."):
                 continue                                   # the Twisted factories require a context
             try:
-                srv, m = build_via_factory(name, given, ctxkind)
+                srv, m = build_via_factory(name, given, ctxkind, flag_value=fv)
                 if srv is None:
                     raise RuntimeError("factory built nothing")
                 obs = observe(srv, m, given)
@@ -230,10 +232,10 @@ def factory_cases():
                 g = given and not (name == "sync.StartSerialServer" and role == "handler")
                 term = "{| fc_factory := %s; fc_role := %s; fc_given := %s; fc_obs_given := %s; fc_obs_default := %s |}" % (
                     string(name), string(role), boolean(g), boolean(og), string(od))
-                cases.append(Case(term, {"factory": name, "role": role, "given": g, "context": ctxkind,
+                cases.append(Case(term, {"factory": name, "role": role, "given": g, "context": ctxkind, "flag_value": repr(fv),
                                          "observed_is_given": og, "observed": od},
                                   kind="factory/%s" % name, nontrivial=True,
-                                  key=(name, role, g, ctxkind)))
+                                  key=(name, role, g, ctxkind, repr(fv))))
     return cases
 
 
@@ -396,7 +398,8 @@ def classify(suite, desc):
 
 def replay_case(suite, desc):
     if suite == "factories":
-        srv, m = build_via_factory(desc["factory"], desc["given"] or desc["role"] == "handler", desc.get("context", "single"))
+        srv, m = build_via_factory(desc["factory"], desc["given"] or desc["role"] == "handler", desc.get("context", "single"),
+                                   flag_value=(1 if desc.get("flag_value") == "1" else True))
         obs = observe(srv, m, True)
         return desc["given"] and not obs.get(desc["role"], (False, ""))[0]
     if suite == "truth":
